@@ -58,6 +58,10 @@ CHECKS = {
          "Generated-input search over write chunkings and poll placements against the reference record list; plus coverage-guided fuzzing (atheris/libFuzzer, streamz.sources instrumented) in the thorough tier. Exploration only.",
          "Trusted: the OS file semantics (append + read), the harness flushing each chunk before the poll; alphabet without carriage returns.",
          "DESIGN.md section 4 C17"),
+ "C19": ("Exhaustive enumeration of the finite configuration product (root kind x mode x loop x child kind x mode x loop) plus Hypothesis-generated longer chains, fan-out and joins, against a small binding model; thread-set and callback-thread observation",
+         "The single-child configuration space is enumerated completely (exhaustive: true for that part); longer chains and joins are generated. Oracle: conflicts raise ValueError and nothing else does, bindings are inherited, asynchronous pipelines stay on the caller's loop and thread. Exploration (with an exhaustively enumerated finite part).",
+         "Trusted: the binding model in props/c19.py (written from the Stream docstring and C19); None and False are the same effective mode.",
+         "DESIGN.md section 4 C19"),
 }
 NOT_YET = "check not built yet in this session (the property is decidable with this technique; see DESIGN.md section 4)"
 
